@@ -1,3 +1,36 @@
-"""thorough tier: proof-stability re-runs (different Z3 seed / halved rlimit) and Kani harnesses."""
+"""thorough tier: the quick verdict plus proof-stability evidence.
+
+Every unit of the property is verified again, uncached, under further Z3 random seeds. A proof found under any seed is a
+proof, so these runs can only ADD information: an obligation that fails under some seed but is discharged under another is
+reported as `unstable` in the evidence (a maintenance warning - such proofs turn into false alarms later), never as a
+violation; an obligation that fails under every seed was already reported by the quick part."""
+import concurrent.futures
+import os
+
+SEEDS = (11, 23, 47)
+
+
 def run(pid, rel_units, built, seed):
-    return [], [], {}
+    import driver
+    jobs = [(name, rs, meta, sd + seed) for name, (rs, meta) in built.items() for sd in SEEDS]
+    res = {}
+    old = os.environ.get('VERIF_NO_CACHE')
+    os.environ['VERIF_NO_CACHE'] = '1'
+    try:
+        with concurrent.futures.ThreadPoolExecutor(max_workers=8) as ex:
+            for (name, rs, meta, sd), vr in zip(jobs, ex.map(lambda j: driver.run_verus(j[1], extra=['--smt-option', 'smt.random_seed=%d' % j[3]]), jobs)):
+                fails, und, vac, st = driver.classify(name, meta, vr)
+                res.setdefault(name, []).append({'seed': sd, 'failed': sorted(f['obligation'] for f in fails), 'undecided': und, 'vacuous': vac,
+                                                 'wall_s': st.get('wall_s'), 'smt_ms': st.get('smt_ms')})
+    finally:
+        if old is None:
+            os.environ.pop('VERIF_NO_CACHE', None)
+        else:
+            os.environ['VERIF_NO_CACHE'] = old
+    unstable = {}
+    for name, runs in res.items():
+        allf = set(x for r in runs for x in r['failed'])
+        common = set.intersection(*[set(r['failed']) for r in runs]) if runs else set()
+        if allf - common or any(r['undecided'] for r in runs):
+            unstable[name] = {'fails_under_some_seed_only': sorted(allf - common), 'undecided_runs': sum(1 for r in runs if r['undecided'])}
+    return [], [], {'stability_runs': res, 'unstable': unstable, 'seeds': [s + seed for s in SEEDS]}
